@@ -3,7 +3,7 @@ import argparse
 import os
 import sys
 
-sys.path.insert(0, "/verif")
+sys.path.insert(0, os.environ.get("VERIF_ROOT") or os.path.dirname(os.path.dirname(os.path.abspath(__file__))))
 from mc import framework as fw  # noqa: E402
 
 
